@@ -82,6 +82,7 @@ void vll_abort(void){
 void vll_assert_fail(void* e, void* f, uint32_t l, void* fn){
   printf("VASSERT FAILED debug-assert %s (%s:%u)\n", (char*)e, (char*)f, l); fflush(stdout); exit(1);
 }
+void vll_native_stop(int what){ if (what == 2) { printf("CHECK ERROR: indirect call outside candidate set\n"); fflush(stdout); exit(5); } printf(what ? "VASSERT FAILED reached IR 'unreachable' (undefined behaviour)\n" : "VASSERT FAILED llvm.trap reached\n"); fflush(stdout); exit(1); }
 static void* vll_alloc(uint64_t n){ void* p = malloc(n ? n : 1); if (!p) exit(3); return p; }
 #define VLL_FREE(p) ((void)(p))   /* native runs never reuse addresses (as in CBMC, where every allocation is a fresh object) */
 #endif
